@@ -3,7 +3,11 @@
 A case of kind "hist" encodes a tree, keeps what the encoding returned (the list object itself; with
 suppress_storage=True the Bipartition objects read from the edges), then edits the tree and encodes again,
 several times, through encode_bipartitions / update_bipartitions (all four keywords) or through an operation
-called with update_bipartitions=True.  After EVERY step EVERY Bipartition object reachable from the tree's
+called with update_bipartitions=True.  Wave 8: a step of kind "supp" calls
+Tree.suppress_unifurcations(update_bipartitions=True), the one operation that MAINTAINS the stored encoding (it drops
+the Bipartition objects of the removed outdegree-one nodes from Tree.bipartition_encoding and keeps all the others)
+instead of encoding again; the trees of gen_supp_case carry unifurcations above internal nodes, above leaves, above
+the root and in chains and are encoded with suppress_unifurcations=False first.  After EVERY step EVERY Bipartition object reachable from the tree's
 edges, from Tree.bipartition_encoding and from every list saved earlier is observed again: its identity
 (token = order of first sight in the history, objects kept alive) and all its attributes.
 
@@ -13,7 +17,11 @@ Oracle clauses (the property's own terms):
   * the value an encoding returned earlier does not change later (same objects, same masks);
   * an encoding creates its objects: none of them was seen before in the history;
   * at the end every saved encoding, handed to from_bipartition_encoding in a shuffled order, rebuilds the
-    topology the tree had when the encoding was taken.
+    topology the tree had when the encoding was taken;
+  * after suppress_unifurcations(update_bipartitions=True) on a tree whose encoding was up to date: no outdegree-one
+    node is left, the maintained encoding is a fresh encoding of the tree as it is now - as a set of split bitmasks
+    AND as a list holding exactly one object per edge, each with exact masks -, the lists returned earlier are
+    unchanged, and (at the end) a tree rebuilt from the maintained list has the clades of the tree.
 """
 import random
 
@@ -35,6 +43,50 @@ def gen_enc_step(rng, force_ss=False):
             rng.choice(["encode_bipartitions", "encode_bipartitions", "update_bipartitions"])]
 
 
+def add_unifurcations(rng, t, p):
+    """outdegree-one nodes (single or chains of 2-3) above internal nodes, leaves and the root; ids renumbered in preorder"""
+    def wrap(nd):
+        nd["kids"] = [wrap(c) for c in nd["kids"]]
+        if rng.random() < p:
+            for _ in range(rng.choice((1, 1, 1, 2, 3))):
+                nd = {"id": -1, "taxon": None, "label": None, "len": None, "kids": [nd]}
+        return nd
+    t = wrap(t)
+    for i, nd in enumerate(trees.preorder(t)):
+        nd["id"] = i
+    return t
+
+
+def gen_supp_case(rng, gen_ns_params, maxleaves=10):
+    """encode KEEPING the unifurcations, then suppress_unifurcations(update_bipartitions=True); go on"""
+    n = rng.randint(3, maxleaves)
+    shape = rng.choice(["binary", "poly", "mixed", "caterpillar", "mixed", "binary"])
+    t = trees.gen_tree(rng, n, shape=shape, lengths="none", unifurcations=rng.choice([0.0, 0.2, 0.4]))
+    t = add_unifurcations(rng, t, rng.choice([0.15, 0.3, 0.5]))
+
+    def enc(su=False):
+        st = gen_enc_step(rng)
+        st[1] = su
+        st[3] = rng.random() < 0.1
+        return st
+    steps = [enc(), ["supp", "suppress_unifurcations", 0]]
+    for _ in range(rng.randint(0, 2)):
+        k = rng.random()
+        if k < 0.6:
+            for _ in range(rng.randint(1, 2)):
+                steps.append(["edit", rng.choice(("split_edge", "split_edge", "split_edge") + EDIT_OPS), rng.randrange(10 ** 6)])
+            if rng.random() < 0.85:
+                steps.append(enc(su=rng.random() < 0.2))
+            steps.append(["supp", "suppress_unifurcations", 0])
+        elif k < 0.8:
+            steps.append(["supp", "suppress_unifurcations", 0])
+        else:
+            steps.append(["via", rng.choice(VIA_OPS), rng.randrange(10 ** 6)])
+            steps.append(["supp", "suppress_unifurcations", 0])
+    return {"kind": "hist", "tree": t, "rooted": rng.choice((True, False, None)), "ns": gen_ns_params(rng, n),
+            "steps": steps, "shape": shape, "shuffle": rng.randrange(10 ** 9), "supp": True}
+
+
 def gen_hist_case(rng, gen_ns_params, maxleaves=12, force_ss=False):
     n = rng.randint(3, maxleaves)
     shape = rng.choice(["binary", "poly", "mixed", "caterpillar", "mixed", "binary"])
@@ -47,6 +99,8 @@ def gen_hist_case(rng, gen_ns_params, maxleaves=12, force_ss=False):
             for _ in range(rng.randint(1, 2)):
                 steps.append(["edit", rng.choice(EDIT_OPS), rng.randrange(10 ** 6)])
             steps.append(gen_enc_step(rng))
+            if rng.random() < 0.25:
+                steps.append(["supp", "suppress_unifurcations", 0])
         else:
             steps.append(["via", rng.choice(VIA_OPS), rng.randrange(10 ** 6)])
     if rng.random() < 0.3:
@@ -182,6 +236,7 @@ def observe_hist(case, setup_tree, dump_mtree):
             keep.append(b)                      # alive: id() stays unique
         return [tok[id(b)]] + bip_fields(b)
     saved = []                                  # [list object or list of edge objects, step index, spec, rooted]
+    maintained = []                             # the same for the lists left by suppress_unifurcations(update_bipartitions=True)
     out = []
     for si, st in enumerate(case["steps"]):
         o = {"step": si, "done": "done"}
@@ -200,6 +255,10 @@ def observe_hist(case, setup_tree, dump_mtree):
                 saved.append([keepval, si, None, None])
             elif st[0] == "edit":
                 o["done"] = apply_edit(tree, st[1], st[2])
+            elif st[0] == "supp":
+                tree.suppress_unifurcations(update_bipartitions=True)
+                if tree.bipartition_encoding is not None:
+                    maintained.append([tree.bipartition_encoding, si, None, None])
             else:
                 o["done"] = apply_via(tree, st[1], st[2])
                 if o["done"] == "done":
@@ -210,8 +269,9 @@ def observe_hist(case, setup_tree, dump_mtree):
             break
         spec, problems = trees.dump_dendropy(tree, tindex, alloc=alloc)
         o["tree"], o["problems"], o["rooted"] = spec, problems, tree.is_rooted
-        if saved and saved[-1][1] == si:
-            saved[-1][2], saved[-1][3] = spec, tree.is_rooted
+        for lst in (saved, maintained):
+            if lst and lst[-1][1] == si:
+                lst[-1][2], lst[-1][3] = spec, tree.is_rooted
         o["edges"] = [[alloc.of(e.head_node), ref(e._bipartition)] for e in tree.postorder_edge_iter()]
         o["stored"] = None if tree.bipartition_encoding is None else [ref(b) for b in tree.bipartition_encoding]
         o["saved"] = [[ref(b) for b in s[0]] for s in saved]
@@ -220,12 +280,14 @@ def observe_hist(case, setup_tree, dump_mtree):
     rebuilt = []
     nslist = [[tindex[id(t)], ns.accession_index(t)] for t in ns]
     rng = random.Random(case["shuffle"])
-    for lst, si, spec, rooted in saved:
+    for lst, si, spec, rooted in saved + maintained:
         if spec is None:
             continue
         order = list(lst)
         rng.shuffle(order)
         r = {"step": si, "orig": spec, "rooted": rooted, "ns": nslist}
+        if case["steps"][si][0] == "supp":
+            r["maintained"] = True
         try:
             t3 = dendropy.Tree.from_bipartition_encoding(order, taxon_namespace=ns, is_rooted=rooted)
             r["result"] = dump_mtree(t3.seed_node, tindex)
@@ -243,6 +305,8 @@ def oracle_hist(case, obs, spec_leaf_bits, bits_of, oracle_from):
     acc = dict((k, v) for k, v in obs["acc"])
     seen = set()            # tokens seen before the current step
     first = {}              # saved index -> its refs when it was saved
+    valid = False           # the tree's encoding is up to date (an encoding step, nothing edited since)
+    valid_supp = set()      # steps where suppress_unifurcations(update_bipartitions=True) found an up-to-date encoding
     for o in obs["steps"]:
         st = case["steps"][o["step"]]
         what = "%s(%s)" % (st[5], "suppress_unifurcations=%s, collapse_unrooted_basal_bifurcation=%s, "
@@ -255,6 +319,21 @@ def oracle_hist(case, obs, spec_leaf_bits, bits_of, oracle_from):
             return (tag + "tree is ill-formed: %s" % o["problems"][:3], "hist-structure-problems")
         encoded = st[0] == "enc" or (st[0] == "via" and o["done"] == "done")
         kw = ":suppress_storage" if (st[0] == "enc" and st[3]) else (":" + st[5] if st[0] == "enc" and st[5] != "encode_bipartitions" else "")
+        maintained = st[0] == "supp" and valid
+        if st[0] == "edit" and o["done"] == "done":
+            valid = False
+        elif encoded:
+            valid = True
+        if st[0] == "supp":
+            unary = [n["id"] for n in trees.preorder(o["tree"]) if len(n["kids"]) == 1]
+            if unary:
+                return (tag + "outdegree-one nodes %s are still on the tree" % unary[:4], "hist-suppress-leaves-unifurcation")
+        if maintained:
+            valid_supp.add(o["step"])
+            kw = ":maintained"
+            encoded_now = True
+        else:
+            encoded_now = encoded
         if st[0] == "enc":
             ss = st[3]
             if o["stored_is_none"] != bool(ss):
@@ -262,7 +341,7 @@ def oracle_hist(case, obs, spec_leaf_bits, bits_of, oracle_from):
                         "hist-storage-keyword")
             if o["ret"] == "other":
                 return (tag + "return value is not what the documentation says", "hist-return-value")
-        if encoded:
+        if encoded_now:
             by_id = {n["id"]: n for n in trees.preorder(o["tree"])}
             S = spec_leaf_bits(o["tree"], acc)
             low = min(S) if S else None
@@ -281,8 +360,20 @@ def oracle_hist(case, obs, spec_leaf_bits, bits_of, oracle_from):
                             "hist-split-not-normalised" + kw)
             if o["stored"] is not None and [r[0] for r in o["stored"]] != [r[0] for _n, r in o["edges"]] \
                     and sorted(r[0] for r in o["stored"]) != sorted(r[0] for _n, r in o["edges"]):
-                return (tag + "bipartition_encoding does not hold the Bipartition objects of the tree's edges",
-                        "hist-encoding-list")
+                return (tag + "bipartition_encoding does not hold the Bipartition objects of the tree's edges"
+                        + (": it has %d objects for %d edges" % (len(o["stored"]), len(o["edges"])) if maintained else ""),
+                        "hist-encoding-list" + (kw if maintained else ""))
+            if maintained and o["stored"] is not None:
+                # as a set of split bitmasks: a fresh encoding of the tree as it is now
+                fresh = set()
+                for nid, _r in o["edges"]:
+                    want = spec_leaf_bits(by_id[nid], acc)
+                    fresh.add(frozenset(want if o["rooted"] else ((S - want) if (low is not None and low in want) else want)))
+                have = set(frozenset(bits_of(r[1])) for r in o["stored"] if r is not None and r[1] is not None and r[1] >= 0)
+                if S and have != fresh:
+                    return (tag + "the maintained encoding has splits %s, a fresh encoding of the same tree has %s"
+                            % (sorted(sorted(x) for x in have), sorted(sorted(x) for x in fresh)),
+                            "hist-maintained-split-set")
         # what an earlier encoding returned does not change
         for k, lst in enumerate(o["saved"]):
             if k not in first:
@@ -313,6 +404,17 @@ def oracle_hist(case, obs, spec_leaf_bits, bits_of, oracle_from):
                     seen.add(r[0])
     for r in obs["rebuilt"]:
         if not spec_leaf_bits(r["orig"], acc):
+            continue
+        if r.get("maintained"):
+            if r["step"] not in valid_supp:
+                continue
+            if "error" in r:
+                return ("from_bipartition_encoding(encoding maintained by suppress_unifurcations at step %d) raised %s"
+                        % (r["step"], r["error"]), "hist-maintained-rebuild-raises")
+            v = oracle_from({"mode": "tree"}, {"ns": r["ns"], "orig": r["orig"], "rooted": r["rooted"], "result": r["result"]})
+            if v:
+                return ("encoding maintained by suppress_unifurcations(update_bipartitions=True) at step %d, rebuilt at "
+                        "the end of the history: %s" % (r["step"], v[0]), "hist-maintained-rebuild:" + v[1])
             continue
         if "error" in r:
             return ("from_bipartition_encoding(encoding saved at step %d) raised %s" % (r["step"], r["error"]),
@@ -357,6 +459,8 @@ def to_coq_hist(case, obs):
         st = case["steps"][o["step"]]
         if st[0] == "enc":
             steps.append("(HEnc %s %s %s %s, %s)" % (cbool(st[1]), cbool(st[2]), cbool(st[3]), cbool(st[4]), c_obs(o)))
+        elif st[0] == "supp":
+            steps.append("(HSupp %s %s, %s)" % (trees.c_tree(o["tree"]), c_ob(o["rooted"]), c_obs(o)))
         elif st[0] == "edit" or o["done"] != "done":
             steps.append("(HEdit %s %s, %s)" % (trees.c_tree(o["tree"]), c_ob(o["rooted"]), c_obs(o)))
         else:
